@@ -114,6 +114,7 @@ func c10Total(c *vrep.Ctx) {
 			return
 		}
 		in := []byte(sb.String())
+		keep := append([]byte(nil), in...)
 		id := strings.Join(names, " ")
 		var msgs []string
 		for ti, cl := range cls {
@@ -147,6 +148,11 @@ func c10Total(c *vrep.Ctx) {
 				c.R.Nontrivial++
 				if msg != "" {
 					msgs = append(msgs, fmt.Sprintf("%s T=%v: panic: %s", api, ts[ti], msg))
+				}
+				if !bytes.Equal(in, keep) {
+					// C04's caller-slice clause, checked here because this harness reaches the rare branches
+					msgs = append(msgs, fmt.Sprintf("%s T=%v: panic: the caller's byte slice was modified", api, ts[ti]))
+					copy(in, keep)
 				}
 			}
 		}
